@@ -246,6 +246,48 @@ def variant_path(body, op, depth=4):
     return out
 
 
+def value_forms(body, op, depth=8, proj=()):
+    """Where does the (enum) value of `op` come from, per reaching definition: [(variant name | '?', bb of the defining
+    aggregate)]. Unlike variant_path this follows locals with several definitions (a value chosen in the arms of a match and
+    used after the join) and field projections into tuple / struct aggregates (`let (a, b) = helper()` after splicing)."""
+    if depth == 0 or op is None:
+        return [("?", None)]
+    if op.get("k") == "const":
+        return [(op.get("variant") or "?", None)] if not proj else [("?", None)]
+    pl = op.get("place")
+    if pl is None:
+        return [("?", None)]
+    fields = []
+    for e in pl["p"]:
+        if isinstance(e, dict) and "i" in e and "v" not in e:
+            fields.append(e["i"])
+        else:
+            return [("?", None)]
+    fields = tuple(fields) + tuple(proj)
+    out = []
+    defs = body.defs().get(pl["l"], [])
+    if not defs:
+        return [("?", None)]
+    for d in defs:
+        bb, _i, kind, payload = d
+        if kind != "assign" or payload["place"]["p"]:
+            out.append(("?", bb))
+            continue
+        rv = payload["rv"]
+        if rv["k"] == "use":
+            out += value_forms(body, rv["op"], depth - 1, fields)
+        elif rv["k"] == "aggr":
+            if not fields:
+                out.append((rv.get("variant") or "?", bb))
+            elif fields[0] < len(rv["ops"]) and "variant" not in rv:
+                out += value_forms(body, rv["ops"][fields[0]], depth - 1, fields[1:])
+            else:
+                out.append(("?", bb))
+        else:
+            out.append(("?", bb))
+    return out
+
+
 def return_sites(body):
     """[(bb, variant_path)] for every definition of the return place."""
     out = []
